@@ -416,6 +416,13 @@ func runR012(c *core.Ctx) {
 			if x.Op == token.EQL && (core.ObjOf(inf, x.Y) == empty || core.ObjOf(inf, x.X) == empty) && cmpPos == 0 {
 				cmpPos = x.Pos()
 			}
+		case *ast.CaseClause:
+			// switch s { case emptyString: … }
+			for _, ce := range x.List {
+				if core.ObjOf(inf, ce) == empty && cmpPos == 0 {
+					cmpPos = ce.Pos()
+				}
+			}
 		case *ast.CallExpr:
 			if sel, ok := core.Unparen(x.Fun).(*ast.SelectorExpr); ok && sel.Sel.Name == "decoder" && decPos == 0 {
 				decPos = x.Pos()
